@@ -119,5 +119,75 @@ inline bool mp_eval(const ExprNode& e, const Array<const ExprSymbol>& args, cons
   return lo == lo && hi == hi;
 }
 
+
+// ---- forward-mode differentiation in the same arithmetic: value and gradient (w.r.t. the scalar symbols) at a point.
+// A node where the function is not differentiable (abs at 0, max/min on a tie, chi at 0, sqrt at 0, domain borders) makes
+// the result invalid: no oracle there.
+struct MD { MI v; std::vector<MI> g; bool ok; MD() : ok(true) {} static MD bad() { MD d; d.ok = false; return d; }
+  bool valid() const { if (!ok || !v.valid()) return false; for (auto& x : g) if (!x.valid()) return false; return true; } };
+inline MD md_const(const MI& v, int n) { MD d; d.v = v; for (int i = 0; i < n; i++) d.g.push_back(MI::of(0, 0)); return d; }
+inline MD md_scale(const MD& a, const MI& v, const MI& k) { // value v, gradient k * a.g
+  if (!a.valid() || !v.valid() || !k.valid()) return MD::bad(); MD d; d.v = v; for (auto& x : a.g) d.g.push_back(mi_mul(k, x)); return d; }
+inline MD md_add(const MD& a, const MD& b) { if (!a.valid() || !b.valid()) return MD::bad(); MD d; d.v = mi_add(a.v, b.v); for (size_t i = 0; i < a.g.size(); i++) d.g.push_back(mi_add(a.g[i], b.g[i])); return d; }
+inline MD md_neg(const MD& a) { if (!a.valid()) return MD::bad(); MD d; d.v = mi_neg(a.v); for (auto& x : a.g) d.g.push_back(mi_neg(x)); return d; }
+inline MD md_sub(const MD& a, const MD& b) { return md_add(a, md_neg(b)); }
+inline MD md_mul(const MD& a, const MD& b) { if (!a.valid() || !b.valid()) return MD::bad(); MD d; d.v = mi_mul(a.v, b.v); for (size_t i = 0; i < a.g.size(); i++) d.g.push_back(mi_add(mi_mul(a.g[i], b.v), mi_mul(a.v, b.g[i]))); return d; }
+inline MD md_inv(const MD& a) { if (!a.valid() || mi_has_zero(a.v)) return MD::bad(); MI iv = mi_inv(a.v); return md_scale(a, iv, mi_neg(mi_mul(iv, iv))); }
+inline MI mi_one_minus_sqr(const MI& v) { return mi_sub(MI::of(1, 1), mi_sqr(v)); }
+inline MI mi_sqrt_pos(const MI& v) { if (!v.valid() || !mi_gt(v, 0)) return MI::bad(); return mi_mono_inc(mpfr_sqrt, v); }
+
+struct MpGrad {
+  const Array<const ExprSymbol>& args; const Vector& pt; int n; std::map<const ExprNode*, MD> memo;
+  MpGrad(const Array<const ExprSymbol>& a, const Vector& p) : args(a), pt(p), n(p.size()) {}
+  MD ev(const ExprNode& e) { auto it = memo.find(&e); if (it != memo.end()) return it->second; MD r = ev0(e); memo.insert(std::make_pair(&e, r)); return r; }
+  MD ev0(const ExprNode& e) {
+    if (!e.dim.is_scalar()) return MD::bad();
+    if (const ExprSymbol* s = dynamic_cast<const ExprSymbol*>(&e)) { int off = 0; for (int i = 0; i < args.size(); i++) { if (&args[i] == s) { MD d = md_const(MI::of(pt[off], pt[off]), n); d.g[off] = MI::of(1, 1); return d; } off += args[i].dim.size(); } return MD::bad(); }
+    if (const ExprConstant* c = dynamic_cast<const ExprConstant*>(&e)) { const Interval& v = c->get_value(); if (v.is_empty() || !v.is_degenerated()) return MD::bad(); return md_const(MI::of(v.lb(), v.ub()), n); }
+    if (const ExprAdd* b = dynamic_cast<const ExprAdd*>(&e)) return md_add(ev(b->left), ev(b->right));
+    if (const ExprSub* b = dynamic_cast<const ExprSub*>(&e)) return md_sub(ev(b->left), ev(b->right));
+    if (const ExprMul* b = dynamic_cast<const ExprMul*>(&e)) { if (!b->left.dim.is_scalar() || !b->right.dim.is_scalar()) return MD::bad(); return md_mul(ev(b->left), ev(b->right)); }
+    if (const ExprDiv* b = dynamic_cast<const ExprDiv*>(&e)) return md_mul(ev(b->left), md_inv(ev(b->right)));
+    if (const ExprMax* b = dynamic_cast<const ExprMax*>(&e)) { MD x = ev(b->left), y = ev(b->right); if (!x.valid() || !y.valid()) return MD::bad(); if (mpfr_greater_p(x.v.lo, y.v.hi)) return x; if (mpfr_greater_p(y.v.lo, x.v.hi)) return y; return MD::bad(); }
+    if (const ExprMin* b = dynamic_cast<const ExprMin*>(&e)) { MD x = ev(b->left), y = ev(b->right); if (!x.valid() || !y.valid()) return MD::bad(); if (mpfr_less_p(x.v.hi, y.v.lo)) return x; if (mpfr_less_p(y.v.hi, x.v.lo)) return y; return MD::bad(); }
+    if (const ExprAtan2* b = dynamic_cast<const ExprAtan2*>(&e)) { MD y = ev(b->left), x = ev(b->right); if (!y.valid() || !x.valid() || !mi_gt(x.v, 0)) return MD::bad();
+      MD d; { MI r; mpfr_srcptr xl = mpfr_sgn(y.v.lo) >= 0 ? x.v.hi : x.v.lo, xh = mpfr_sgn(y.v.hi) >= 0 ? x.v.lo : x.v.hi; mpfr_atan2(r.lo, y.v.lo, xl, MPFR_RNDD); mpfr_atan2(r.hi, y.v.hi, xh, MPFR_RNDU); d.v = r; }
+      MI den = mi_add(mi_sqr(x.v), mi_sqr(y.v)); MI iden = mi_inv(den);
+      for (int i = 0; i < n; i++) d.g.push_back(mi_mul(mi_sub(mi_mul(x.v, y.g[i]), mi_mul(y.v, x.g[i])), iden)); return d; }
+    if (const ExprMinus* u = dynamic_cast<const ExprMinus*>(&e)) return md_neg(ev(u->expr));
+    if (const ExprSqr* u = dynamic_cast<const ExprSqr*>(&e)) { MD a = ev(u->expr); if (!a.valid()) return MD::bad(); return md_scale(a, mi_sqr(a.v), mi_mul(MI::of(2, 2), a.v)); }
+    if (const ExprSqrt* u = dynamic_cast<const ExprSqrt*>(&e)) { MD a = ev(u->expr); if (!a.valid()) return MD::bad(); MI s = mi_sqrt_pos(a.v); return md_scale(a, s, mi_inv(mi_mul(MI::of(2, 2), s))); }
+    if (const ExprPower* u = dynamic_cast<const ExprPower*>(&e)) { MD a = ev(u->expr); if (!a.valid()) return MD::bad(); int k = u->expon; if (k == 0) return md_const(MI::of(1, 1), n);
+      if (k < 0 && mi_has_zero(a.v)) return MD::bad(); return md_scale(a, mi_powi(a.v, k), mi_mul(MI::of(k, k), mi_powi(a.v, k - 1))); }
+    if (const ExprExp* u = dynamic_cast<const ExprExp*>(&e)) { MD a = ev(u->expr); if (!a.valid()) return MD::bad(); MI x = mi_mono_inc(mpfr_exp, a.v); return md_scale(a, x, x); }
+    if (const ExprLog* u = dynamic_cast<const ExprLog*>(&e)) { MD a = ev(u->expr); if (!a.valid() || !mi_gt(a.v, 0)) return MD::bad(); return md_scale(a, mi_mono_inc(mpfr_log, a.v), mi_inv(a.v)); }
+    if (const ExprCos* u = dynamic_cast<const ExprCos*>(&e)) { MD a = ev(u->expr); if (!a.valid()) return MD::bad(); return md_scale(a, mi_lip(mpfr_cos, a.v), mi_neg(mi_lip(mpfr_sin, a.v))); }
+    if (const ExprSin* u = dynamic_cast<const ExprSin*>(&e)) { MD a = ev(u->expr); if (!a.valid()) return MD::bad(); return md_scale(a, mi_lip(mpfr_sin, a.v), mi_lip(mpfr_cos, a.v)); }
+    if (const ExprTan* u = dynamic_cast<const ExprTan*>(&e)) { MD a = ev(u->expr); if (!a.valid()) return MD::bad(); MI t = mi_tan(a.v); return md_scale(a, t, mi_add(MI::of(1, 1), mi_sqr(t))); }
+    if (const ExprAcos* u = dynamic_cast<const ExprAcos*>(&e)) { MD a = ev(u->expr); if (!a.valid() || !mi_gt(a.v, -1) || !mi_lt(a.v, 1)) return MD::bad(); return md_scale(a, mi_mono_dec(mpfr_acos, a.v), mi_neg(mi_inv(mi_sqrt_pos(mi_one_minus_sqr(a.v))))); }
+    if (const ExprAsin* u = dynamic_cast<const ExprAsin*>(&e)) { MD a = ev(u->expr); if (!a.valid() || !mi_gt(a.v, -1) || !mi_lt(a.v, 1)) return MD::bad(); return md_scale(a, mi_mono_inc(mpfr_asin, a.v), mi_inv(mi_sqrt_pos(mi_one_minus_sqr(a.v)))); }
+    if (const ExprAtan* u = dynamic_cast<const ExprAtan*>(&e)) { MD a = ev(u->expr); if (!a.valid()) return MD::bad(); return md_scale(a, mi_mono_inc(mpfr_atan, a.v), mi_inv(mi_add(MI::of(1, 1), mi_sqr(a.v)))); }
+    if (const ExprCosh* u = dynamic_cast<const ExprCosh*>(&e)) { MD a = ev(u->expr); if (!a.valid()) return MD::bad(); return md_scale(a, mi_mono_inc(mpfr_cosh, mi_abs(a.v)), mi_mono_inc(mpfr_sinh, a.v)); }
+    if (const ExprSinh* u = dynamic_cast<const ExprSinh*>(&e)) { MD a = ev(u->expr); if (!a.valid()) return MD::bad(); return md_scale(a, mi_mono_inc(mpfr_sinh, a.v), mi_mono_inc(mpfr_cosh, mi_abs(a.v))); }
+    if (const ExprTanh* u = dynamic_cast<const ExprTanh*>(&e)) { MD a = ev(u->expr); if (!a.valid()) return MD::bad(); MI t = mi_mono_inc(mpfr_tanh, a.v); return md_scale(a, t, mi_one_minus_sqr(t)); }
+    if (const ExprAcosh* u = dynamic_cast<const ExprAcosh*>(&e)) { MD a = ev(u->expr); if (!a.valid() || !mi_gt(a.v, 1)) return MD::bad(); return md_scale(a, mi_mono_inc(mpfr_acosh, a.v), mi_inv(mi_sqrt_pos(mi_sub(mi_sqr(a.v), MI::of(1, 1))))); }
+    if (const ExprAsinh* u = dynamic_cast<const ExprAsinh*>(&e)) { MD a = ev(u->expr); if (!a.valid()) return MD::bad(); return md_scale(a, mi_mono_inc(mpfr_asinh, a.v), mi_inv(mi_sqrt_pos(mi_add(mi_sqr(a.v), MI::of(1, 1))))); }
+    if (const ExprAtanh* u = dynamic_cast<const ExprAtanh*>(&e)) { MD a = ev(u->expr); if (!a.valid() || !mi_gt(a.v, -1) || !mi_lt(a.v, 1)) return MD::bad(); return md_scale(a, mi_mono_inc(mpfr_atanh, a.v), mi_inv(mi_one_minus_sqr(a.v))); }
+    if (const ExprAbs* u = dynamic_cast<const ExprAbs*>(&e)) { MD a = ev(u->expr); if (!a.valid()) return MD::bad(); if (mi_gt(a.v, 0)) return a; if (mi_lt(a.v, 0)) return md_neg(a); return MD::bad(); }
+    if (const ExprSign* u = dynamic_cast<const ExprSign*>(&e)) { MD a = ev(u->expr); if (!a.valid()) return MD::bad(); if (mi_gt(a.v, 0)) return md_const(MI::of(1, 1), n); if (mi_lt(a.v, 0)) return md_const(MI::of(-1, -1), n); return MD::bad(); }
+    if (const ExprChi* c = dynamic_cast<const ExprChi*>(&e)) { MD a = ev(c->args[0]), b1 = ev(c->args[1]), b2 = ev(c->args[2]); if (!a.valid() || !b1.valid() || !b2.valid()) return MD::bad(); if (mi_lt(a.v, 0)) return b1; if (mi_gt(a.v, 0)) return b2; return MD::bad(); }
+    return MD::bad();
+  }
+};
+
+// enclosures in doubles of the partial derivatives of the scalar expression at the point (false: no oracle at this point)
+inline bool mp_grad(const ExprNode& e, const Array<const ExprSymbol>& args, const Vector& pt, std::vector<double>& lo, std::vector<double>& hi) {
+  MpGrad m(args, pt); MD r = m.ev(e);
+  if (!r.valid()) return false;
+  lo.clear(); hi.clear();
+  for (auto& g : r.g) { double a = mpfr_get_d(g.lo, MPFR_RNDD), b = mpfr_get_d(g.hi, MPFR_RNDU); if (!(a == a) || !(b == b)) return false; lo.push_back(a); hi.push_back(b); }
+  return true;
+}
+
 } // namespace vh
 #endif
